@@ -215,6 +215,17 @@ pub fn verif_outline_count_nl(text: &String) -> (r: usize)
 pub fn verif_outline_len(text: &String) -> (r: usize)
     ensures r == text@.len(),
 { text.len() }
+/// `text.chars().count()`: the number of characters (exact: the view of a String is its sequence of characters)
+#[verifier::external_body]
+pub fn verif_outline_char_count(text: &String) -> (r: usize)
+    ensures r == text@.len(),
+{ text.chars().count() }
+/// `text[idx + 1..].chars().count()` for the index `rfind('\n')` returned: the characters after the last line break
+#[verifier::external_body]
+pub fn verif_outline_chars_after_last_nl(text: &String, idx: usize) -> (r: usize)
+    requires str_breaks(text@) > 0,
+    ensures r == last_line_len(text@),
+{ text[idx + 1..].chars().count() }
 
 pub proof fn lemma_last_line_len_no_break(s: Seq<char>)
     requires str_breaks(s) == 0,
@@ -229,6 +240,9 @@ impl Token {
 //@@ OUTLINE optional
 //@@< self.to_string().len()
 //@@> verif_outline_len(&verif_outline_spelling(self))
+//@@ OUTLINE optional
+//@@< self.to_string().chars().count()
+//@@> verif_outline_char_count(&verif_outline_spelling(self))
     ensures r == tok_width(*self),                                               //# width_is_spelling_length [C18,C19]
 //@@ END
 //@@ FN src/parse/lex/token.rs | impl Token | extent
@@ -247,6 +261,12 @@ impl Token {
 //@@ OUTLINE optional count=all
 //@@< text.len()
 //@@> verif_outline_len(&text)
+//@@ OUTLINE optional
+//@@< text[$ix + 1..].chars().count()
+//@@> verif_outline_chars_after_last_nl(&text, $ix)
+//@@ OUTLINE optional
+//@@< text.chars().count()
+//@@> verif_outline_char_count(&text)
 //@@ HINT before optional
 //@@< match text.rfind('\n')
 //@@> proof { if str_breaks(text@) == 0 { lemma_last_line_len_no_break(text@); } }
@@ -736,6 +756,12 @@ pub proof fn lemma_string_token_advance(p: (int, int), s: Seq<char>)
 //@@ OUTLINE optional
 //@@< $string.matches('\n').count()
 //@@> verif_outline_count_nl(&$string)
+//@@ OUTLINE optional
+//@@< $string[$ix2 + 1..].chars().count()
+//@@> verif_outline_chars_after_last_nl(&$string, $ix2)
+//@@ OUTLINE optional
+//@@< $string.chars().count()
+//@@> verif_outline_char_count(&$string)
 //@@ OUTLINE
 //@@< $cexpr[0..$$].to_owned()
 //@@> verif_outline_prefix(&$cexpr, $$1)
